@@ -43,7 +43,13 @@ pub fn segs(r: &mut Rng, lo: usize, hi: usize) -> String {
 /// Pattern part of a network rule (no options).
 pub fn pattern(r: &mut Rng) -> String {
     let mut s = String::new();
-    match r.below(12) {
+    match r.below(13) {
+        12 => {
+            // hostname anchor whose host part is empty or starts with a wildcard: `||*/path`, `||*.js`, `||^x`
+            s.push_str("||");
+            s.push_str(r.pick(&["*/", "*", "*.", "^", "*-"]));
+            s.push_str(&segs(r, 1, 2));
+        }
         10 => {
             // pattern-less rule (only meaningful with options: `$image`, `@@$script,domain=..`)
         }
